@@ -681,7 +681,7 @@ def r5_6(run):
                         and v[2][0][2][0][0] in ("idx", "proj"))
     run.ob("newton_raphson|residual-norm-nan-propagating", ok,
            "residual_norm = np.max(np.abs(residual)) (propagates NaN)", run.where(nr, nr.node))
-    run.floor(6)
+    run.floor(4)
 
 
 # ---------------------------------------------------------------------------------------------
@@ -876,5 +876,72 @@ def r5_7(run):
     run.floor(3)
 
 
+def _is_element_index(t):
+    """net[element].index (net possibly carrying earlier stores of this function)"""
+    from ..arrnf import base_of
+    return t is not None and t[0] == "attr" and t[2] == "index" and t[1][0] == "idx" and t[1][2] == (("n", "element"),) \
+        and base_of(t[1][1]) == ("n", "net")
+
+
+def _fires(ev, assign):
+    return all(assign.get(repr(c)) == p for c, p in ev.cond)
+
+
+def r5_8(run):
+    """a failed run leaves no results: the reset that precedes every solver stage must not depend on how the previous tables are
+    laid out in memory.  On every path through init_results_element the entry net['res_<element>'] is *rebound* to a freshly
+    constructed all-NaN DataFrame with the element's index (an in-place reset through `.values[:] = nan` writes into a copy as
+    soon as the frame holds more than one block and then leaves the old numbers in place)"""
+    from ..arrnf import ANF, C, key as tkey, show as tshow
+    import itertools
+    ix = run.index
+    f = ix.func("pandapipes.component_models.component_toolbox.init_results_element")
+    run.analysed(f)
+    ps = f.params()
+    r = ANF(ix, f, param_alias={ps[0]: "net", ps[1]: "element"}).run()
+    res_key = ("cat", (C("res_"), ("n", "element")))
+    from ..arrnf import base_of
+    good = [s_ for s_ in r.stores() if base_of(s_.base) == ("n", "net") and s_.index == (res_key,) and s_.value[0] == "call"
+            and s_.value[1] == ("x", "pandas.DataFrame") and s_.value[2][:1] == (C("nan"),)
+            and _is_element_index(dict(s_.value[3]).get("index"))]
+    run.ob("init_results_element|fresh-nan-table-stored", len(good) >= 1,
+           "init_results_element stores a new all-NaN DataFrame with the element's index as net['res_<element>']", run.where(f, f.node))
+    events = sorted(good + r.returns(), key=lambda e: e.seq)
+    atoms = sorted({repr(c) for e in events for c, p in e.cond})
+    missed = []
+    if len(atoms) <= 10:
+        for vals in itertools.product((True, False), repeat=len(atoms)):
+            a = dict(zip(atoms, vals))
+            done = False
+            for e in events:
+                if not _fires(e, a):
+                    continue
+                if e.kind == "store":
+                    done = True
+                elif e.kind == "return":
+                    break
+            if not done:
+                missed.append(a)
+    else:
+        raise AnalysisError("init_results_element has too many path conditions to enumerate")
+    run.ob("init_results_element|rebound-on-every-path", not missed,
+           "no path through init_results_element ends without rebinding the result table", run.where(f, f.node),
+           detail="; ".join(", ".join("%s=%s" % (k[:60], v) for k, v in m.items()) for m in missed[:2]))
+    # every component's init_results reaches it
+    n = 0
+    for c in ix.components():
+        m = ix.lookup_method(c, "init_results")
+        if m is None:
+            continue
+        n += 1
+    iar = ix.func("pandapipes.pf.pipeflow_setup.init_all_result_tables")
+    run.analysed(iar)
+    ra = ANF(ix, iar).run()
+    ok = any(c.fn[0] == "attr" and c.fn[2] == "init_results" and c.loops and not c.cond for c in ra.calls())
+    run.ob("init_all_result_tables|every-component", ok and n >= 10,
+           "init_all_result_tables calls init_results of every component of the net unconditionally", run.where(iar, iar.node))
+    run.floor(3)
+
+
 RULES = [("R5.1", r5_1), ("R5.2", r5_2), ("R5.3", r5_3), ("R5.4", r5_4), ("R5.5", r5_5), ("R5.6", r5_6),
-         ("R5.7", r5_7)]
+         ("R5.7", r5_7), ("R5.8", r5_8)]
